@@ -83,7 +83,10 @@ class Gen:
                 d[key] = self.value(t[2], depth - 1)
             return d
         if k == 'opt':
-            if rng.random() < 0.3:
+            # recursive hierarchies (a class holding Optional[ancestor]) must
+            # bottom out: recognition in yatiml is exponential in the
+            # nesting depth of such values
+            if depth <= 0 or rng.random() < 0.3:
                 return None
             return self.value(t[1], depth)
         if k == 'union':
